@@ -509,8 +509,10 @@ def main():
     os.makedirs(os.path.dirname(OUT), exist_ok=True)
     old = open(OUT).read() if os.path.exists(OUT) else None
     if old != txt:
-        with open(OUT, "w") as f:
+        _tmp = OUT + ".tmp%d" % os.getpid()
+        with open(_tmp, "w") as f:
             f.write(txt)
+        os.replace(_tmp, OUT)  # atomic: a concurrent coqc never sees a partial file
     return {"id_fields": fields, "reuse_rule": rule, "match_rule": mrule, "tokens_required": toks,
             "hyphen_rule": hyphen, "trj_suffix": trj, "ext_table": exts, "sha256": sha}
 
